@@ -10,7 +10,7 @@ import functools
 
 from .core import BudgetExceeded
 
-BUDGET_CALLS = 400
+BUDGET_CALLS = 20000
 BUDGET_ROWS = 5e7
 
 events = collections.Counter()
@@ -79,8 +79,17 @@ def install():
     global _installed
     if _installed:
         return
+    import importlib
     import torchphysics  # noqa: F401
     from torchphysics.problem.domains.domain import Domain
+    # the operation classes are imported lazily by the library: load them so that they are wrapped too
+    for m in ("domainoperations.union", "domainoperations.cut", "domainoperations.intersection",
+              "domainoperations.product", "domainoperations.translate", "domainoperations.rotate",
+              "domain2D.shapely_polygon", "domain3D.trimesh_polyhedron"):
+        try:
+            importlib.import_module("torchphysics.problem.domains." + m)
+        except Exception:
+            pass
     from torchphysics.problem.samplers.sampler_base import PointSampler
     for cls in [Domain] + all_subclasses(Domain):
         for name in ("sample_random_uniform", "sample_grid"):
